@@ -166,6 +166,7 @@ class Judge:
         self.foreign = collections.Counter()
         self.drift = collections.Counter()
         self.drift_examples = {}
+        self.validated = 0          # pairs whose real verdicts were judged against both oracles
 
     def note_drift(self, kind, example):
         self.drift[kind] += 1
@@ -198,6 +199,7 @@ class Judge:
         if len(sev) != len(ev):
             raise vlib.ToolError(f"row count mismatch: spec {sev} real {ev}")
         real_pruned, real_def = kept == "0", deff == "1"
+        self.validated += 1
         bE = "prune" if (real_pruned and "1" in ev) else ("alltrue" if (real_def and set(ev) != {"1"}) else None)
         bS = "prune" if (real_pruned and "1" in sev) else ("alltrue" if (real_def and set(sev) != {"1"}) else None)
         if real_pruned or real_def or "N" in sev or len(set(sev)) > 1:
@@ -321,7 +323,7 @@ def replay_family(ctx, J, cases, rng, tag, n_sample, with_c0):
                         J.dev_e2e[known[0]] += 1
                         ctx.known(FIND[known[0]], detail)
                     else:
-                        ctx.violation({"prof": prof, "pi": pi, "res": res, "config": cfgname}, what)
+                        ctx.violation({"prof": prof, "pi": pi, "e2e_p": groups[g + 1]["preds"][si], "rgs": groups[g]["rgs"], "res": res, "config": cfgname}, what)
                 for kind, a, b, use_def in (("api", "api_mem", "api_pq", False), ("sql", "sql_mem", "sql_pq", False)):
                     if kind == "api":
                         if res.get("api", 1) == 1:
@@ -366,8 +368,12 @@ def replay_family(ctx, J, cases, rng, tag, n_sample, with_c0):
         for si, res in enumerate(V["res"]):
             ctx.add("evaluations")
             if ws == "none":
-                if "0" in res["kept"] or "1" in res["def"]:
-                    ctx.violation({"prof": prof, "wstats": ws, "res": res}, "a file written WITHOUT statistics had a row group skipped / proved")
+                bad = [ri for ri in range(len(res["kept"])) if "E" not in res["ev"][ri] and
+                       ((res["kept"][ri] == "0" and "1" in res["ev"][ri]) or (res["def"][ri] == "1" and set(res["ev"][ri]) != {"1"}))]
+                if bad:
+                    ctx.violation({"prof": prof, "wstats": ws, "res": res, "rgs": bad[:10]}, "a file written WITHOUT statistics had a row group skipped / proved against evaluate_expr")
+                elif "0" in res["kept"] or "1" in res["def"]:
+                    J.note_drift("writer variant none: a row group was skipped / proved without statistics (harmlessly)", {"prof": prof, "kept": res["kept"], "def": res["def"]})
             elif (res["kept"], res["def"]) != (S["res"][si]["kept"], S["res"][si]["def"]):
                 J.note_drift(f"writer variant {ws}: verdicts differ from page-level statistics", {"prof": prof, "variant": res, "page": S["res"][si]["kept"]})
         ctx.add("writer_variants_checked")
@@ -455,7 +461,7 @@ def run(ctx):
     ctx.set("deviations_confirmed_on_real_code", dict(J.dev_confirmed))
     ctx.set("deviations_confirmed_end_to_end", dict(J.dev_e2e))
     ctx.set("foreign_findings", dict(J.foreign))
-    ctx.set("traces_validated_against_impl", ctx.cov.get("evaluations", 0))
+    ctx.set("traces_validated_against_impl", J.validated)
     if J.drift:
         ctx.set("fidelity_drift", dict(J.drift))
         for k, ex in J.drift_examples.items():
@@ -474,6 +480,24 @@ def run(ctx):
 
 def replay(ctx, obj):
     c = obj["case"]
+    if "e2e_p" in c:       # an end-to-end difference: re-run the statement over the same table, Parquet vs memory
+        ty, conc = c["prof"].split(".")
+        g = {"gid": 0, "type": ty, "conc": conc, "wstats": "page", "rgs": c["rgs"], "preds": [c["e2e_p"]], "e2e": [0], "mw": 1, "api": 1}
+        env = {"QE_COMPILE": "0"} if c.get("config") == "QE_COMPILE=0" else None
+        res = run_harness(ctx, [g], "replay", env)[0]["res"][0]
+        ctx.sample(res)
+        ctx.set("distinct_nontrivial", 1)
+        ctx.add("evaluations")
+        diffs = []
+        if res.get("api") == 0:
+            diffs.append(f"provider API: Parquet {res['api_pq']} vs memory {res['api_mem']}")
+        if res.get("sql_pq", {}).get("ids") != res.get("sql_mem", {}).get("ids"):
+            diffs.append(f"{res.get('sql')}: Parquet {res.get('sql_pq')} vs memory {res.get('sql_mem')}")
+        if res.get("agg_pq", {}).get("rows") != res.get("agg_mem", {}).get("rows"):
+            diffs.append(f"aggregate form: Parquet {res.get('agg_pq')} vs memory {res.get('agg_mem')}")
+        if diffs:
+            ctx.violation(c, "end to end, Parquet vs memory: " + "; ".join(diffs))
+        return
     if "p" not in c or "rg" not in c:
         raise vlib.ToolError("replay file has no (row group, predicate)")
     ty, conc = c["prof"].split(".")
